@@ -210,6 +210,8 @@ def check(model, rep, tier):
   rep.rule('HOIST-LAZY', 'statement-level hoisting respects laziness', floor=1)
   rep.rule('NEW-BINDING', 'templates assign only to fresh symbols or to what the '
            'user statement itself binds', floor=15)
+  rep.rule('STDLIB', 'standard-library names the package uses exist in the running '
+           'interpreter', floor=1)
   rep.rule('ORIG-DEFS', 'user reads are marked by the presence of ORIG_DEFINITIONS '
            'and every marked read goes through ag__.ld', floor=3)
   rep.rule('LD-TRAV', 'the variable-access pass reaches every read of a variable '
@@ -610,6 +612,56 @@ def check(model, rep, tier):
                                 test_in_stmt_ctx},
             witness='while l.pop(): n += 1  (converted: infinite loop); '
             'c and l.pop()')
+
+  # ---------------------------------------------------------------- STDLIB
+  # every `<standard library module>.<name>` the package mentions exists in the
+  # interpreter it runs on (the checker runs on that interpreter; only standard
+  # library modules are imported here, never the package)
+  import importlib as _il
+  import sys as _sys
+  std = set(_sys.stdlib_module_names)
+  nref = 0
+  for mod in model.modules.values():
+    imps = {}
+    for n in ast.walk(mod.tree):
+      if isinstance(n, ast.Import):
+        for a in n.names:
+          top = a.name.split('.')[0]
+          if top in std:
+            imps[a.asname or top] = a.name if a.asname else top
+    if not imps:
+      continue
+    shadow = {t.id for fi in mod.all_functions() for x in ast.walk(fi.node)
+              if isinstance(x, (ast.Assign, ast.For, ast.arg))
+              for t in ([x] if isinstance(x, ast.arg) else ast.walk(x))
+              if isinstance(t, ast.Name) and isinstance(t.ctx, ast.Store)} | {
+                  a.arg for fi in mod.all_functions() for a in ast.walk(fi.node)
+                  if isinstance(a, ast.arg)}
+    for n in ast.walk(mod.tree):
+      if isinstance(n, ast.Attribute) and isinstance(n.value, ast.Name) and \
+          n.value.id in imps and n.value.id not in shadow:
+        nref += 1
+        try:
+          mm = _il.import_module(imps[n.value.id])
+        except Exception:
+          continue
+        ok = hasattr(mm, n.attr)
+        if not ok:
+          try:
+            _il.import_module(imps[n.value.id] + '.' + n.attr)
+            ok = True
+          except Exception:
+            ok = False
+        if not ok:
+          rep.violation('STDLIB', '%s:%s.%s' % (mod.rel, imps[n.value.id], n.attr),
+                        'the standard library of the running interpreter (%s) has no '
+                        '%s.%s: the code path raises AttributeError' % (
+                            _sys.version.split()[0], imps[n.value.id], n.attr),
+                        line=n.lineno,
+                        witness='any program reaching that line')
+  rep.check(nref >= 300, 'STDLIB', 'malt:standard-library-references-resolve',
+            'too few references were resolved (matcher broken?)', {'references': nref},
+            nontrivial=False)
 
   # ---------------------------------------------------------------- ORIG-DEFS
   # "read that existed in the user's code" is encoded as the presence of the
